@@ -284,7 +284,7 @@ def job_oil(job):
     oil = load_sym("bluebonnet.fluids.oil", solution_gor_Standing=rs, b_o_Standing=bo)
     job.encoded(oil, "density_Standing")
     job.stub("solution_gor_Standing, b_o_Standing inside density_Standing: positive uninterpreted recording stubs")
-    vs, dom = box(job, T=(80, 350), p=(15, 20000), api=(12, 55), gg=("0.56", "1.3"), rsi=(20, 2500))
+    vs, dom = box(job, T=(80, 350), p=("14.7", 20000), api=(12, 55), gg=("0.56", "1.3"), rsi=(20, 2500))
     a = tuple(vs[k] for k in ("T", "p", "api", "gg", "rsi"))
     for k, pr in enumerate(paths(job, lambda: oil.density_Standing(*a), dom)):
         want = K("62.37") * K("141.5") / (K("131.5") + vs["api"]) + K("0.0136") * vs["gg"] * rs(*a)
